@@ -62,8 +62,8 @@ fn max_val_len_for_slot(slot: u64) -> Option<u64> {
 }
 
 /// slot size for the next filler so that the rest stays fillable (0 or >= 16)
-fn next_fill(r: u64) -> u64 {
-    let ok = |c: u64| c <= r && (r - c == 0 || r - c >= 16);
+fn next_fill(r: u64, avoid: u64) -> u64 {
+    let ok = |c: u64| c != avoid && c <= r && (r - c == 0 || (r - c >= 16 && r - c != avoid));
     if r >= 1152 + 16 {
         let mut c = (r.min(50_048) / 128) * 128;
         while c > 1152 && !ok(c) {
@@ -100,8 +100,8 @@ fn seed_image(a: &Args, n: u64, b: u64, val_boundary: u64, key_boundary: u64, ct
         }
         // placeholders whose 16-byte value slots will take the values of the key fillers (so that filling
         // the key file does not move the end of the value file any more)
-        // (40-byte keys: their freed 48-byte key slots do not serve the 16/24-byte records of the alphabet)
-        let zs: Vec<Vec<u8>> = (0..40).map(|_| key_in_bucket(n, b, 40, b'Z', &mut ctr)).collect();
+        // (56-byte keys: their freed 64-byte key slots serve neither the 16/24-byte records of the alphabet nor the fillers)
+        let zs: Vec<Vec<u8>> = (0..40).map(|_| key_in_bucket(n, b, 56, b'Z', &mut ctr)).collect();
         if key_boundary != 0 {
             for k in zs.iter() {
                 put(&mut s, k, &crate::util::gen_bytes(14, 3, 0))?;
@@ -115,7 +115,7 @@ fn seed_image(a: &Args, n: u64, b: u64, val_boundary: u64, key_boundary: u64, ct
                 if e0 >= target {
                     break;
                 }
-                let c = next_fill(target - e0);
+                let c = next_fill(target - e0, 0);
                 let Some(len) = (if c == 0 { None } else { max_val_len_for_slot(c) }) else { break };
                 let fk = key_in_bucket(n, b, 7, b'V', &mut ctr);
                 put(&mut s, &fk, &crate::util::gen_bytes(len as usize, 2, 0))?;
@@ -136,7 +136,8 @@ fn seed_image(a: &Args, n: u64, b: u64, val_boundary: u64, key_boundary: u64, ct
                 if e0 >= target {
                     break;
                 }
-                let c = next_fill(target - e0);
+                // (free 64-byte key slots exist: the placeholders' - a filler of that class would not extend the file)
+                let c = next_fill(target - e0, 64);
                 if c == 0 {
                     break;
                 }
@@ -250,6 +251,8 @@ pub fn run(a: &Args) -> Ctx {
 
     // big start images cost more per transition: fewer states
     cap = (cap as u64 * 60_000 / (img0.total_len().max(60_000))).max(400) as usize;
+    // the frontier holds whole images: keep one shard below ~600 MB (16 shards run at once)
+    cap = cap.min((600_000_000 / img0.total_len().max(1)) as usize).max(100);
     let mut all_keys = keys.clone();
     all_keys.extend(model0.keys().cloned());
     let dir = a.scratch.join("c08");
